@@ -406,11 +406,17 @@ def State.toVal (s : State) : Val :=
   .struct "effectiveConfig" [("MosnConfig", s.mosn), ("Listener", .map s.listeners), ("Cluster", .map s.clusters),
                              ("Routers", .map s.routers), ("ExtendConfigs", .list s.exts)]
 
-/-- `conf.MosnConfig.ClusterManager = ClusterManagerConfig{ClusterManagerConfigJson{TLSContext: cfg…TLSContext}}` -/
+/-- `conf.MosnConfig.ClusterManager = ClusterManagerConfig{ClusterManagerConfigJson{TLSContext: cfg…TLSContext,
+ClusterPoolEnable: cfg…ClusterPoolEnable}}`: everything else of the cluster manager config is cleared -/
+def optField (fs : List (String × Val)) (k : String) : List (String × Val) :=
+  match getF fs k with
+  | some t => [(k, t)]
+  | none => []
+
 def cmOnlyTLS (cm : Val) : Val :=
-  let tls := (getF cm.fieldsOf "ClusterManagerConfigJson").bind (fun j => getF j.fieldsOf "TLSContext")
   .struct "ClusterManagerConfig" [("ClusterManagerConfigJson", .struct "ClusterManagerConfigJson"
-    (match tls with | some t => [("TLSContext", t)] | none => []))]
+    (optField ((getF cm.fieldsOf "ClusterManagerConfigJson").getD .leaf).fieldsOf "TLSContext" ++
+     optField ((getF cm.fieldsOf "ClusterManagerConfigJson").getD .leaf).fieldsOf "ClusterPoolEnable"))]
 
 /-- `Servers = make([]ServerConfig, 1); Servers[0] = cfg.Servers[0]; Servers[0].Listeners = nil; .Routers = nil` -/
 def firstServer (servers : Val) : Val :=
